@@ -360,7 +360,7 @@ def lineStepS (st : SplitState) (line : List Char) : LineOut :=
 def lineStep (st : SplitState) (raw : List Char) : LineOut := lineStepS st (stripComment raw)
 
 def splitGo : SplitState → List (List Char) → List (List Char) × SplitEnd
-  | st, [] => ([], if st.depth != 0 then .parserError else .ok)
+  | st, [] => ([], if st.inFence then .parserError else if st.depth != 0 then .parserError else .ok)
   | st, raw :: rest =>
     match lineStep st raw with
     | .next st' => splitGo st' rest
@@ -565,9 +565,8 @@ def templateGo : Nat → Nat → List RawMatch → List Char → List Char
 def template (s : List Char) : List Char := templateGo 0 0 (scanTerms s) s
 
 inductive PErr where
-  | parserError | indentationError
-  | formatFailure     -- ValueError / IndexError / KeyError out of `str.format`
-  | unpackFailure     -- ValueError: no `=` to split at
+  | parserError | indentationError | symbolError
+  | formatFailure     -- ValueError / IndexError / KeyError out of `str.format` (unreachable: `Proofs.C13`)
   deriving DecidableEq, Repr, Inhabited
 
 /-- `parse_terms`: every match becomes a term; a bad index is a ParserError. -/
@@ -586,10 +585,10 @@ def splitAtEq : List Char → Option (List Char × List Char)
 
 def hasKind (k : Kind) (ts : List Term) : Bool := ts.any fun t => t.kind == k
 
-/-- `parse_equation_terms`: (lhs terms, rhs terms). -/
+/-- `parse_equation_terms`: (lhs terms, rhs terms); a missing `=` is a ParserError (checked first). -/
 def equationTerms (s : List Char) : Except PErr (List Term × List Term) :=
   match splitAtEq s with
-  | none => .error .unpackFailure
+  | none => .error .parserError
   | some (l, r) =>
     match termsOf (scanTerms l) with
     | none => .error .parserError
@@ -604,9 +603,79 @@ def braceNet : Int → List Char → Int
   | n, [] => n
   | n, c :: cs => braceNet (if c == '{' then n + 1 else if c == '}' then n - 1 else n) cs
 
+/-- The statement with every match span removed (`outside` in `parse_equation`). -/
+def outsideGo : Nat → Nat → List RawMatch → List Char → List Char
+  | _, _, _, [] => []
+  | skip + 1, pos, ms, _ :: cs => outsideGo skip (pos + 1) ms cs
+  | 0, pos, [], c :: cs => c :: outsideGo 0 (pos + 1) [] cs
+  | 0, pos, m :: ms, c :: cs =>
+    if pos == m.start then outsideGo (m.stop - m.start - 1) (pos + 1) ms cs
+    else c :: outsideGo 0 (pos + 1) (m :: ms) cs
+
+def outside (s : List Char) : List Char := outsideGo 0 0 (scanTerms s) s
+
+def isBrace (c : Char) : Bool := c == '{' || c == '}'
+
 def stripFence (s : List Char) : List Char :=
   ((s.dropWhile fun c => c == '`' || c == '\r' || c == '\n').reverse.dropWhile
     fun c => c == '`' || c == '\r' || c == '\n').reverse
+
+/-! ### The symbol loop of `parse_equation`, as far as its outcome class goes
+    (the symbols themselves are M3, `FsicModel/Parser.lean`). -/
+
+/-- `Type` of the symbol a term gives rise to (functions are kept apart, verbatim terms are skipped). -/
+inductive SymT where
+  | endo | exo | param | error | keyword | invalid
+  deriving DecidableEq, Repr
+
+def SymT.varLike : SymT → Bool
+  | .endo | .exo => true
+  | _ => false
+
+/-- `Symbol.combine` on the types: equal types stay; endogenous/exogenous promote to endogenous (`max`);
+    anything else is a SymbolError (`none`). -/
+def SymT.combine (a b : SymT) : Option SymT :=
+  if a == b then some a else if a.varLike && b.varLike then some .endo else none
+
+def symTOf (lhs : Bool) : Kind → SymT
+  | .variable => if lhs then .endo else .exo
+  | .parameter => .param
+  | .error => .error
+  | .keyword => .keyword
+  | _ => .invalid
+
+def lookupSym : List (List Char × SymT) → List Char → Option SymT
+  | [], _ => none
+  | (k, v) :: kvs, n => if k == n then some v else lookupSym kvs n
+
+def setSym : List (List Char × SymT) → List Char → SymT → List (List Char × SymT)
+  | [], n, v => [(n, v)]
+  | (k, w) :: kvs, n, v => if k == n then (k, v) :: kvs else (k, w) :: setSym kvs n v
+
+/-- The loop over the terms: `syms` = the non-function entries of `symbols`, `funcs` = `functions`. -/
+def symLoop : List (List Char × SymT) → List (List Char) → List (Bool × Term) → Except PErr (List (List Char × SymT))
+  | syms, _, [] => .ok syms
+  | syms, funcs, (lhs, t) :: ts =>
+    if t.kind == .verbatim then symLoop syms funcs ts
+    else if t.kind == .function then
+      (if funcs.elem t.name then symLoop syms funcs ts
+       else if (lookupSym syms t.name).isSome then .error .parserError
+       else symLoop syms (t.name :: funcs) ts)
+    else if funcs.elem t.name then .error .parserError
+    else match lookupSym syms t.name with
+      | none => symLoop (setSym syms t.name (symTOf lhs t.kind)) funcs ts
+      | some old =>
+        match old.combine (symTOf lhs t.kind) with
+        | some new => symLoop (setSym syms t.name new) funcs ts
+        | none => .error .symbolError
+
+def tagSide (lhs : Bool) (ts : List Term) : List (Bool × Term) := ts.map fun t => (lhs, t)
+
+/-- Outcome class of the symbol loop followed by the "exactly one endogenous variable" check. -/
+def symbolStage (lt rt : List Term) : Option PErr :=
+  match symLoop [] [] (tagSide true lt ++ tagSide false rt) with
+  | .error e => some e
+  | .ok syms => if (syms.filter fun p => p.2 == .endo).length == 1 then none else some .parserError
 
 inductive EqOut where
   | empty
@@ -618,14 +687,23 @@ inductive EqOut where
 def finishEq (s : List Char) (lt rt : List Term) : EqOut :=
   match pyFormat (normaliseWs (template s)) ((lt ++ rt).map termStr) with
   | .fail => .err .formatFailure
-  | eq => .parsed lt rt eq (pyFormat (normaliseWs (template s)) ((lt ++ rt).map termCode))
+  | eq =>
+    match symbolStage lt rt with
+    | some e => .err e
+    | none => .parsed lt rt eq (pyFormat (normaliseWs (template s)) ((lt ++ rt).map termCode))
 
+/-- `parse_equation` after the single-statement check, in the order of the code: verbatim block, brace count,
+    braces outside matched terms, `parse_equation_terms`, a term spanning the `=`, template and `str.format`,
+    symbol loop, one-endogenous check. -/
 def parseBody (s : List Char) : EqOut :=
   if startsWith ['`'] s && endsWith ['`'] s then .verbatim s (stripFence s)
   else if braceNet 0 s != 0 then .err .parserError
+  else if (outside s).any isBrace then .err .parserError
   else match equationTerms s with
     | .error e => .err e
-    | .ok (lt, rt) => finishEq s lt rt
+    | .ok (lt, rt) =>
+      if (lt ++ rt).length != (scanTerms s).length then .err .parserError
+      else finishEq s lt rt
 
 def parseEquationText (s : List Char) : EqOut :=
   if strip s == [] then .empty
